@@ -254,6 +254,113 @@ def inject():
     return harness
 
 
+# ---- grid: ill-formed values x typed options x channels x exit modes (solver-enumerated) ------
+
+GRID_TYPES = ["int", "list", "dict", "any", "class", "type", "callable", "path", "enum", "optdc", "union", "tuple"]
+GRID_VALUES = {
+    "missing-module": "no.such.module.Thing",
+    "missing-attr": "os.no_such_attribute",
+    "non-class-object": "os.sep",
+    "unrelated-class": "vf.fixtures.Other",
+    "broken-json": '{"a": [1, ',
+    "broken-yaml": "a: [1, }",
+    "alias-unknown": "*nope",
+    "anchor-self": "&x [*x]",
+    "class_path-wrong-type": '{"class_path": 5}',
+    "class_path-list": '{"class_path": ["vf.fixtures.Base"]}',
+    "init_args-wrong-type": '{"class_path": "vf.fixtures.Base", "init_args": 7}',
+    "init_args-list": '{"class_path": "vf.fixtures.Base", "init_args": [1]}',
+    "missing-file": "/nonexistent/dir/file.yaml",
+    "directory": "/tmp",
+    "empty": "",
+    "dash": "-",
+    "double-dash": "--",
+    "unicode-digit": "\u00b2",
+    "huge-int": "9" * 5000,
+    "nested-quotes": "'\"'",
+    "tab": "\t",
+    "null-byte": "a\x00b",
+    "dotted-empty-segment": "a..b",
+    "plus": "+",
+}
+GRID_CHANNELS = ["argv", "argv-space", "config", "object", "env"]
+
+
+def _grid_parser(exit_on_error):
+    from typing import Any, Callable, Dict, List, Optional, Tuple, Type, Union
+
+    from jsonargparse import ActionConfigFile, ArgumentParser
+    from jsonargparse.typing import Path_fr
+
+    from ..fixtures import Base, Color, Req
+
+    p = ArgumentParser(exit_on_error=exit_on_error, prog="app")
+    p.add_argument("--cfg", action=ActionConfigFile)
+    p.add_argument("--int", type=int, default=0)
+    p.add_argument("--list", type=List[int], default=[])
+    p.add_argument("--dict", type=Dict[str, int], default={})
+    p.add_argument("--any", type=Any, default=None)
+    p.add_argument("--class", dest="class_", type=Base, default=None)
+    p.add_argument("--type", type=Type[Base], default=None)
+    p.add_argument("--callable", type=Callable, default=None)
+    p.add_argument("--path", type=Path_fr, default=None)
+    p.add_argument("--enum", type=Color, default=Color.RED)
+    p.add_argument("--optdc", type=Optional[Req], default=None)
+    p.add_argument("--union", type=Union[int, List[Base], None], default=None)
+    p.add_argument("--tuple", type=Tuple[int, Base], default=None)
+    return p
+
+
+def _grid_once(tname, vname, channel, eoe):
+    import json as _json
+
+    value = GRID_VALUES[vname]
+    dest = "class_" if tname == "class" else tname
+    opt = "--class" if tname == "class" else "--" + tname
+    env_name = "APP_" + dest.upper()
+
+    def run():
+        p = _grid_parser(eoe)
+        if channel == "argv":
+            return p.parse_args([f"{opt}={value}"])
+        if channel == "argv-space":
+            return p.parse_args([opt, value])
+        if channel == "config":
+            return p.parse_args(["--cfg", _json.dumps({dest: value})])
+        if channel == "object":
+            return p.parse_object({dest: value})
+        if channel == "env":
+            return p.parse_env({env_name: value})
+        raise RuntimeError(channel)
+
+    if channel == "env" and "\x00" in value:
+        return None  # not a legal environment value
+    kind, detail = _outcome(run, eoe)
+    S.note(kind)
+    if kind not in OK_KINDS:
+        if kind == "escaped:RecursionError" and vname == "anchor-self" and tname == "any":
+            return Fail("leak:escaped:RecursionError", case="self-referential-alias-Any", channel=channel)
+        return Fail("leak:" + kind, option=tname, value=vname, channel=channel, exit_on_error=eoe, detail=detail)
+    return True
+
+
+def grid(tname):
+    _grid_once("int", "empty", "argv", False)
+
+    def harness():
+        vname = S.pick("value", sorted(GRID_VALUES))
+        channel = S.pick("channel", GRID_CHANNELS)
+        eoe = S.flag("exit_on_error")
+        if S.replaying is not None:
+            return _grid_once(tname, vname, channel, eoe)
+        from crosshair.tracers import NoTracing
+
+        with NoTracing():
+            return _grid_once(tname, vname, channel, eoe)
+
+    return harness
+
+
 # ---- main ---------------------------------------------------------------------------------------
 
 
@@ -369,6 +476,28 @@ def main(rep, tier):
                 rep.violation(f"case {case}: {res.get('detail')}", dict(module="props.c03", func="replay_extra", payload=dict(case=case)))
         else:
             rep.nontrivial += 1
+    # grid of ill-formed values
+    gres = run_jobs([dict(module="c03", func="grid", kwargs=dict(tname=t), timeout=600) for t in GRID_TYPES])
+    gfails = absorb(rep, gres, require_tags=("ArgumentError", "exit2", "namespace"))
+    rep.bounds["grid"] = dict(options=GRID_TYPES, values=sorted(GRID_VALUES), channels=GRID_CHANNELS)
+    for cls, samples in gfails.items():
+        seen = set()
+        for smp in samples:
+            i = smp["info"]
+            key = (i.get("option"), i.get("value"), i.get("case"))
+            if key in seen:
+                continue
+            seen.add(key)
+            payload = dict(module="c03", func="grid", kwargs=smp["kwargs"], ordered=smp["values"].get("__order__", []))
+            r = run_native("ch", "replay_path", payload)
+            if not r.get("reproduced"):
+                rep.inconc(f"grid counterexample {cls} {i} did not reproduce natively: {r}")
+                continue
+            known = rep.match_finding(cls, dict(case=i.get("case", ""), option=i.get("option", ""), value=i.get("value", ""), detail=r.get("detail", "")))
+            if known:
+                rep.known_finding(known, f"{i.get('option', smp['kwargs']['tname'])} {i.get('value', i.get('case'))} via {i.get('channel')}")
+            else:
+                rep.violation(f"{cls}: option {i.get('option')} given {i.get('value')!r} through {i.get('channel')}: {r.get('detail')}", dict(module="ch", func="replay_path", payload=payload, cls=cls))
     # fault injection
     results = run_jobs([dict(module="c03", func="inject", kwargs={}, timeout=600)])
     fails = absorb(rep, results, require_tags=("ArgumentError", "exit2"))
